@@ -97,6 +97,18 @@ var invalidClasses = []invalidClass{
 	{"elem:pointer-to-string", func(r *gen.Rand) (reflect.Type, string) { return reflect.TypeOf([]*string(nil)), tagOf("1,default,set<string>") }, false},
 	{"value:pointer-to-scalar", func(r *gen.Rand) (reflect.Type, string) { return reflect.TypeOf(map[string]*int64(nil)), tagOf("1,default,map<string:i64>") }, false},
 	{"value:pointer-to-list", func(r *gen.Rand) (reflect.Type, string) { return reflect.TypeOf(map[string]*[]int64(nil)), tagOf("1,default,map<string:list<i64>>") }, false},
+	{"value:pointer-to-scalar-unannotated", func(r *gen.Rand) (reflect.Type, string) { return reflect.TypeOf(map[string]*int32(nil)), tagOf("1,default") }, false},
+	{"value:pointer-to-scalar-thrift-tag", func(r *gen.Rand) (reflect.Type, string) { return reflect.TypeOf(map[string]*int64(nil)), `thrift:"m,1,optional"` }, false},
+	{"value:nested-pointer-to-scalar-unannotated", func(r *gen.Rand) (reflect.Type, string) { return reflect.TypeOf(map[string]map[int32]*float64(nil)), tagOf("1,default") }, false},
+	{"key:pointer-to-scalar-unannotated", func(r *gen.Rand) (reflect.Type, string) { return reflect.TypeOf(map[*int32]string(nil)), tagOf("1,default") }, false},
+	{"key:struct-by-value-unannotated", func(r *gen.Rand) (reflect.Type, string) { return reflect.MapOf(leafT, reflect.TypeOf(int32(0))), tagOf("1,default") }, false},
+	{"key:float32-unannotated", func(r *gen.Rand) (reflect.Type, string) { return reflect.TypeOf(map[float32]int32(nil)), tagOf("1,default") }, false},
+	{"kind:uint32-unannotated", func(r *gen.Rand) (reflect.Type, string) { return reflect.TypeOf(uint32(0)), tagOf("1,default") }, false},
+	{"kind:map-uint-value-unannotated", func(r *gen.Rand) (reflect.Type, string) { return reflect.TypeOf(map[string]uint16(nil)), tagOf("1") }, false},
+	{"ptr:ptr-to-map-unannotated", func(r *gen.Rand) (reflect.Type, string) { return reflect.TypeOf((*map[string]int32)(nil)), tagOf("1,optional") }, false},
+	{"ptr:ptr-to-ptr-struct-unannotated", func(r *gen.Rand) (reflect.Type, string) { return reflect.PtrTo(reflect.PtrTo(leafT)), tagOf("1,optional") }, false},
+	{"ptr:map-value-ptr-to-ptr-unannotated", func(r *gen.Rand) (reflect.Type, string) { return reflect.MapOf(reflect.TypeOf(""), reflect.PtrTo(reflect.PtrTo(leafT))), tagOf("1,default") }, false},
+	{"ptr:non-optional-scalar-unannotated", func(r *gen.Rand) (reflect.Type, string) { return reflect.TypeOf((*int64)(nil)), tagOf("1") }, false},
 	{"ptr:ptr-to-ptr-struct", func(r *gen.Rand) (reflect.Type, string) { return reflect.PtrTo(reflect.PtrTo(leafT)), tagOf("1,optional,Leaf") }, false},
 	{"ptr:ptr-to-ptr-scalar", func(r *gen.Rand) (reflect.Type, string) { return reflect.TypeOf((**int32)(nil)), tagOf("1,optional,i32") }, false},
 	{"ptr:ptr-to-list", func(r *gen.Rand) (reflect.Type, string) { return reflect.TypeOf((*[]int32)(nil)), tagOf("1,optional,list<i32>") }, false},
@@ -129,15 +141,33 @@ var c13Positions = []string{"top", "nested-ptr", "nested-val", "list-elem", "map
 
 // buildInvalid builds a fresh dynamic struct holding the offending field at the
 // requested position, plus a valid sibling sharing the valid nested types.
-func buildInvalid(r *gen.Rand, ic *invalidClass, pos string) (bad reflect.Type, sibling *schema.Struct) {
+func buildInvalid(r *gen.Rand, ic *invalidClass, pos string) (bad reflect.Type, sibling, sibling2 *schema.Struct) {
 	ft, tag := ic.field(r)
-	// a valid helper struct shared between the invalid type and its sibling
+	// valid helper structs shared between the invalid type and its sibling: the
+	// by-value struct S1 itself holds a pointer to another struct, and both are
+	// reached (lower field ids) BEFORE the offending field, so that a failed
+	// registration has already linked them when it is rolled back
 	tc := &gen.TypeCfg{MaxDepth: 1, MaxFields: 3, Required: false}
-	shared := gen.RandomStruct(r, tc, 1)
-	sharedF := reflect.StructField{Name: schema.UniqueName("Sh"), Type: reflect.PtrTo(shared.Go), Tag: reflect.StructTag(tagOf("7,optional,Dyn"))}
+	s2 := gen.RandomStruct(r, tc, 1)
+	shared := &schema.Struct{UnknownIdx: -1, Fields: []*schema.Field{
+		{ID: 1, Req: schema.Default, T: schema.Scalar(schema.I32)},
+		{ID: 2, Req: schema.Optional, T: schema.StructOf(s2, true)},
+		{ID: 3, Req: schema.Default, T: schema.ListOf(schema.StructOf(s2, true))},
+	}}
+	shared.Build()
+	shPtr := func(id int) reflect.StructField {
+		return reflect.StructField{Name: schema.UniqueName("Sh"), Type: reflect.PtrTo(shared.Go), Tag: reflect.StructTag(tagOf(fmt.Sprintf("%d,optional,Dyn", id)))}
+	}
+	shVal := func(id int) reflect.StructField {
+		return reflect.StructField{Name: schema.UniqueName("Sv"), Type: shared.Go, Tag: reflect.StructTag(tagOf(fmt.Sprintf("%d,default,Dyn", id)))}
+	}
+	// the offending field's own id is 40 so that the shared fields come first
+	if strings.HasPrefix(tag, `frugal:"1`) {
+		tag = `frugal:"40` + tag[len(`frugal:"1`):]
+	}
 	fields := []reflect.StructField{
 		{Name: schema.UniqueName("Ok"), Type: reflect.TypeOf(int64(0)), Tag: reflect.StructTag(tagOf("5,default,i64"))},
-		sharedF,
+		shPtr(7), shVal(8),
 	}
 	badF := reflect.StructField{Name: schema.UniqueName("Bad"), Type: ft, Tag: reflect.StructTag(tag)}
 	if tag == "DUP" {
@@ -153,8 +183,9 @@ func buildInvalid(r *gen.Rand, ic *invalidClass, pos string) (bad reflect.Type, 
 	wrap := func(t reflect.Type, tag string) reflect.Type {
 		return reflect.StructOf([]reflect.StructField{
 			{Name: schema.UniqueName("W"), Type: reflect.TypeOf(""), Tag: reflect.StructTag(tagOf("1,default,string"))},
-			{Name: schema.UniqueName("N"), Type: t, Tag: reflect.StructTag(tagOf(tag))},
-			{Name: schema.UniqueName("Sh"), Type: reflect.PtrTo(shared.Go), Tag: reflect.StructTag(tagOf("9,optional,Dyn"))},
+			shVal(2), shPtr(3),
+			{Name: schema.UniqueName("N"), Type: t, Tag: reflect.StructTag(tagOf("20," + tag[strings.Index(tag, ",")+1:]))},
+			shPtr(30),
 		})
 	}
 	switch pos {
@@ -173,11 +204,19 @@ func buildInvalid(r *gen.Rand, ic *invalidClass, pos string) (bad reflect.Type, 
 	case "depth3":
 		bad = wrap(reflect.PtrTo(wrap(reflect.SliceOf(wrap(reflect.PtrTo(inner), "2,optional,Dyn")), "2,default,set<Dyn>")), "2,optional,Dyn")
 	}
+	// two siblings: one reaches the shared struct only by value, the other only
+	// through pointers (a pointer use re-links what a by-value use relies on,
+	// so the by-value-only sibling is checked first)
 	sibling = &schema.Struct{UnknownIdx: -1, Fields: []*schema.Field{
 		{ID: 1, Req: schema.Default, T: schema.Scalar(schema.String)},
+		{ID: 8, Req: schema.Default, T: schema.StructOf(shared, false)},
+		{ID: 13, Req: schema.Default, T: schema.MapOf(schema.Scalar(schema.I32), schema.StructOf(shared, false))},
+	}}
+	sibling2 = &schema.Struct{UnknownIdx: -1, Fields: []*schema.Field{
 		{ID: 9, Req: schema.Optional, T: schema.StructOf(shared, true)},
 		{ID: 12, Req: schema.Default, T: schema.ListOf(schema.StructOf(shared, true))},
 	}}
+	sibling2.Build()
 	sibling.Build()
 	return
 }
@@ -263,10 +302,15 @@ func runC13(c *harness.Ctx, idx int) {
 	c.Tag("pos:" + pos)
 	c.Shape(ic.name + "/" + pos + "/" + strings.Join(order, ","))
 	c.NonTrivial()
-	bad, sibling := buildInvalid(r, ic, pos)
+	bad, sibling, sibling2 := buildInvalid(r, ic, pos)
 	c.Step("class=%s position=%s order=%v type=%v", ic.name, pos, order, bad)
 	sibFirst := r.Bool()
+	var checkOne func(sibling *schema.Struct, when string)
 	checkSibling := func(when string) {
+		checkOne(sibling, when)
+		checkOne(sibling2, when)
+	}
+	checkOne = func(sibling *schema.Struct, when string) {
 		v := gen.NewValue(r, sibling, gen.DefaultValCfg())
 		want := ref.Encode(sibling, v.Elem())
 		buf := make([]byte, len(want)+32)
@@ -330,7 +374,7 @@ func runC13(c *harness.Ctx, idx int) {
 // sub-process scenarios: static recursive families and invalid arguments
 
 var c13Subs = []string{
-	"zoo:top-then-top2", "zoo:top2-first", "zoo:badb-after-top", "zoo:top3-then-badd", "zoo:size-first",
+	"zoo:top-then-top2", "zoo:top2-first", "zoo:badb-after-top", "zoo:top3-then-badd", "zoo:size-first", "zoo:byvalue-cycle", "zoo:byvalue-cycle-r-first",
 	"args:encode", "args:decode", "args:size",
 }
 
@@ -434,6 +478,15 @@ func RunSub(name string) {
 		}
 		expectRejectValue("BadTop2", &zoo.BadTop2{B: &zoo.BadB{A: &zoo.BadA{X: &zoo.Bad{U: 1}}}})
 		expectReject("BadB", reflect.TypeOf(zoo.BadB{}))
+	case "zoo:byvalue-cycle":
+		expectReject("CycP", reflect.TypeOf(zoo.CycP{}))
+		expectRejectValue("CycP", &zoo.CycP{V: zoo.CycV{L: []*zoo.CycP{{}}, X: &zoo.Bad{U: 1}}})
+		expectReject("CycV", reflect.TypeOf(zoo.CycV{}))
+		expectRejectValue("CycR", &zoo.CycR{P: &zoo.CycP{V: zoo.CycV{X: &zoo.Bad{}}}})
+	case "zoo:byvalue-cycle-r-first":
+		expectRejectValue("CycR", &zoo.CycR{P: &zoo.CycP{V: zoo.CycV{L: []*zoo.CycP{{}}, X: &zoo.Bad{}}}})
+		expectReject("CycR", reflect.TypeOf(zoo.CycR{}))
+		expectReject("CycP", reflect.TypeOf(zoo.CycP{}))
 	case "args:encode", "args:decode", "args:size":
 		runArgs(name[5:], res)
 	}
